@@ -21,6 +21,11 @@ def main():
     if os.path.exists(p):
         extra = json.load(open(p))
     claimed = dict(CLAIMED); claimed.update(extra.get("claimed", {}))
+    cdir = os.path.join(ROOT, "tools", "claims")      # one JSON per property: {text, note, technique, design_ref[, category]}
+    if os.path.isdir(cdir):
+        for f in sorted(os.listdir(cdir)):
+            if f.endswith(".json"):
+                claimed[f[:-5]] = json.load(open(os.path.join(cdir, f)))
     na = extra.get("not_applicable", {})
     hooks_commits = extra.get("hook_commits", [])
     checks = []
